@@ -24,7 +24,13 @@ SUBS = [(r" < ", " <= "), (r" <= ", " < "), (r" > ", " >= "), (r" >= ", " > "), 
         (r"NonTerminating", "Terminating"), (r"\bTerminating\b", "NonTerminating"),
         (r"\(1\)", "(0)"), (r"\(1\)", "(2)"), (r"\+= 1", "+= 2"), (r"0usize", "1usize"),
         (r"true", "false"), (r"false", "true"),
-        (r"\.pop\(\);", ";"), (r"\?;", ";"), (r"return None;", "{}"), (r" && ", " || "), (r" \|\| ", " && ")]
+        (r"\.pop\(\);", ";"), (r"\?;", ";"), (r"return None;", "{}"), (r" && ", " || "), (r" \|\| ", " && "),
+        (r"\.min\(", ".max("), (r"\.max\(", ".min("), (r"checked_sub", "checked_add"), (r" - ", " + "), (r" \+ ", " - "),
+        (r"\(start, end\)", "(end, start)"), (r"== 0\b", "== 1"), (r"NEW_LINE", "CARRIAGE_RETURN"), (r"CARRIAGE_RETURN", "NEW_LINE"),
+        (r"= '\\t'", "= ' '"), (r"= ' '", "= '\\t'"), (r"= 13;", "= 12;"), (r"= 3;", "= 2;"), (r"= 1;", "= 2;"),
+        (r"parts\[(\d+)\]", lambda m: "parts[%d]" % (int(m.group(1)) + 1)), (r"parts\[(\d+)\]", lambda m: "parts[%d]" % max(0, int(m.group(1)) - 1)),
+        (r"\bstart\b", "stop"), (r"\bstop\b", "start"), (r"Ok\(0\)", "Ok(1)"), (r"\.clone\(\)\.move_forward", ".clone().move_backward"),
+        (r"^(\s*)self\.[a-z_]+ (\+)?= [^;]*;\s*$", lambda m: m.group(1) + ";"), (r"^(\s*)[a-z_]+\.push[a-z_]*\([^;]*\);\s*$", lambda m: m.group(1) + ";")]
 
 
 def code_spans(text):
@@ -56,7 +62,7 @@ for f in FILES:
     for i in ok:
         for pat, rep in SUBS:
             for m in re.finditer(pat, lines[i]):
-                new = lines[i][:m.start()] + rep + lines[i][m.end():]
+                new = lines[i][:m.start()] + (rep(m) if callable(rep) else rep) + lines[i][m.end():]
                 if new != lines[i]:
                     mutants.append((f, i, lines[i].strip(), new.strip(), "\n".join(lines[:i] + [new] + lines[i + 1:])))
 print("candidates:", len(mutants), flush=True)
